@@ -1,0 +1,209 @@
+//! Random-oracle model of the Keccak-based hashes (`Sha3`, `Kmac`) with the
+//! `tiny_keccak` API subset the crate uses.
+//!
+//! A hasher accumulates its input in a bounded transcript. On `finalize`:
+//! - under Kani the transcript is looked up in a table of earlier queries:
+//!   same (function, input) gives the same output; a new input gets an
+//!   arbitrary (`kani::any()`) output assumed different from all earlier
+//!   outputs, both on bytes 0..16 and on bytes 16..48 (collisions, which have
+//!   negligible probability for the real functions, are assumed away);
+//! - natively (model validation with the repository's tests) a fixed
+//!   non-cryptographic mixing function is used.
+
+/// Maximal transcript length (bytes). Exceeding it is a modelling error.
+pub const CAP: usize = 160;
+const OUT: usize = 64;
+
+pub trait Hasher {
+    fn update(&mut self, input: &[u8]);
+    fn finalize(self, output: &mut [u8]);
+}
+
+#[derive(Clone)]
+struct Transcript {
+    kind: u8,
+    len: usize,
+    data: [u8; CAP],
+}
+
+impl Transcript {
+    fn new(kind: u8) -> Self {
+        Self {
+            kind,
+            len: 0,
+            data: [0; CAP],
+        }
+    }
+
+    fn absorb(&mut self, input: &[u8]) {
+        let end = self.len + input.len();
+        assert!(end <= CAP, "verif_model::hash transcript overflow");
+        self.data[self.len..end].copy_from_slice(input);
+        self.len = end;
+    }
+
+    fn squeeze(self, output: &mut [u8]) {
+        assert!(output.len() <= OUT);
+        let out = oracle::query(self.kind, &self.data, self.len);
+        let n = output.len();
+        output.copy_from_slice(&out[..n]);
+    }
+}
+
+#[derive(Clone)]
+pub struct Sha3(Transcript);
+
+impl Sha3 {
+    pub fn v256() -> Self {
+        Self(Transcript::new(1))
+    }
+
+    pub fn v384() -> Self {
+        Self(Transcript::new(2))
+    }
+
+    pub fn v512() -> Self {
+        Self(Transcript::new(3))
+    }
+}
+
+impl Hasher for Sha3 {
+    fn update(&mut self, input: &[u8]) {
+        self.0.absorb(input);
+    }
+
+    fn finalize(self, output: &mut [u8]) {
+        self.0.squeeze(output);
+    }
+}
+
+#[derive(Clone)]
+pub struct Kmac(Transcript);
+
+impl Kmac {
+    /// The key and the customization string are length-framed, as in KMAC.
+    pub fn v256(key: &[u8], custom_string: &[u8]) -> Self {
+        let mut t = Transcript::new(4);
+        t.absorb(&[key.len() as u8]);
+        t.absorb(key);
+        t.absorb(&[custom_string.len() as u8]);
+        t.absorb(custom_string);
+        Self(t)
+    }
+}
+
+impl Hasher for Kmac {
+    fn update(&mut self, input: &[u8]) {
+        self.0.absorb(input);
+    }
+
+    fn finalize(self, output: &mut [u8]) {
+        self.0.squeeze(output);
+    }
+}
+
+#[cfg(not(kani))]
+mod oracle {
+    use super::{CAP, OUT};
+
+    pub fn query(kind: u8, data: &[u8; CAP], len: usize) -> [u8; OUT] {
+        // FNV-1a absorb, splitmix64 squeeze: deterministic, not cryptographic.
+        let mut h: u64 = 0xcbf2_9ce4_8422_2325 ^ ((kind as u64) << 56) ^ (len as u64);
+        for b in &data[..len] {
+            h ^= *b as u64;
+            h = h.wrapping_mul(0x0000_0100_0000_01b3);
+        }
+        let mut out = [0u8; OUT];
+        for chunk in out.chunks_mut(8) {
+            h = h.wrapping_add(0x9e37_79b9_7f4a_7c15);
+            let mut z = h;
+            z = (z ^ (z >> 30)).wrapping_mul(0xbf58_476d_1ce4_e5b9);
+            z = (z ^ (z >> 27)).wrapping_mul(0x94d0_49bb_1331_11eb);
+            z ^= z >> 31;
+            chunk.copy_from_slice(&z.to_le_bytes());
+        }
+        out
+    }
+}
+
+#[cfg(kani)]
+pub mod oracle {
+    use super::{CAP, OUT};
+
+    /// Maximal number of distinct queries per harness.
+    pub const SLOTS: usize = 24;
+    const WORDS: usize = CAP / 16;
+
+    #[derive(Clone, Copy)]
+    struct Slot {
+        kind: u8,
+        len: usize,
+        data: [u128; WORDS],
+        lo: u128,
+        mid: [u128; 2],
+        out: [u8; OUT],
+    }
+
+    const EMPTY: Slot = Slot {
+        kind: 0,
+        len: 0,
+        data: [0; WORDS],
+        lo: 0,
+        mid: [0; 2],
+        out: [0; OUT],
+    };
+
+    static mut N: usize = 0;
+    static mut TABLE: [Slot; SLOTS] = [EMPTY; SLOTS];
+
+    /// Number of distinct oracle queries made so far (for harness witnesses).
+    pub fn queries() -> usize {
+        unsafe { N }
+    }
+
+    fn word(b: &[u8], i: usize) -> u128 {
+        let mut w = [0u8; 16];
+        w.copy_from_slice(&b[16 * i..16 * i + 16]);
+        u128::from_le_bytes(w)
+    }
+
+    pub fn query(kind: u8, data: &[u8; CAP], len: usize) -> [u8; OUT] {
+        let mut words = [0u128; WORDS];
+        let mut i = 0;
+        while i < WORDS {
+            words[i] = word(data, i);
+            i += 1;
+        }
+        unsafe {
+            let n = N;
+            let mut i = 0;
+            while i < n {
+                let s = &TABLE[i];
+                if s.kind == kind && s.len == len && s.data == words {
+                    return s.out;
+                }
+                i += 1;
+            }
+            assert!(n < SLOTS, "verif_model::hash oracle table overflow");
+            let out: [u8; OUT] = kani::any();
+            let lo = word(&out, 0);
+            let mid = [word(&out[16..], 0), word(&out[16..], 1)];
+            let mut j = 0;
+            while j < n {
+                kani::assume(lo != TABLE[j].lo);
+                kani::assume(mid != TABLE[j].mid);
+                j += 1;
+            }
+            TABLE[n] = Slot {
+                kind,
+                len,
+                data: words,
+                lo,
+                mid,
+                out,
+            };
+            N = n + 1;
+            out
+        }
+    }
+}
